@@ -463,12 +463,13 @@ def run_property(prop, tier, seed, jobs=None, only_family=None):
             with ctx.Pool(min(16, len(todo[:lim]))) as pool:
                 for (b, e, first, a), r in zip(todo[:lim], pool.map(shrink_unit, [t[3] for t in todo[:lim]])):
                     shr[b] = r
-        os.makedirs(replay_dir, exist_ok=True)
+        new_dir = os.path.join(os.environ["VF_REPLAY_DIR"], prop) if os.environ.get("VF_REPLAY_DIR") else replay_dir
+        os.makedirs(new_dir, exist_ok=True)
         for b, e, first, a in todo:
             r = shr.get(b) or dict(case=first["case"], info=None, shrunk=False)
             fam = mod.FAMILIES[e["fi"]]
             info = r.get("info") or (e["name"], first["value"], first["tol"], first["info"])
-            rp = os.path.join(replay_dir, "new-" + hashlib.sha1(b.encode()).hexdigest()[:12] + ".json")
+            rp = os.path.join(new_dir, "new-" + hashlib.sha1(b.encode()).hexdigest()[:12] + ".json")
             with open(rp, "w") as fh:
                 json.dump(dict(property=prop, family=fam.name, axis=fam.axis[e["ai"]], bucket=b, case=r["case"],
                                shrunk=bool(r.get("shrunk")), value=info[1], tol=info[2], info=info[3],
@@ -501,7 +502,7 @@ def run_property(prop, tier, seed, jobs=None, only_family=None):
         assumptions=list(getattr(mod, "ASSUMPTIONS", [])),
         wall_s=round(wall, 2), violations=len(violations),
     )
-    if not only_family:
+    if not only_family and not os.environ.get("VF_NO_EVIDENCE"):
         os.makedirs(os.path.join(VERIF_DIR, "evidence"), exist_ok=True)
         with open(os.path.join(VERIF_DIR, "evidence", f"{prop}.json"), "w") as fh:
             json.dump(ev, fh, indent=1, default=_jdefault)
